@@ -1337,6 +1337,7 @@ def rule_PL8(ctx, tier):
     else:
         rr.fail("is_permanent-table", "RetryError::is_permanent folds to %s" % t)
     rr.require_floor(7, "PL8 instances")
+    reachable_only_with_nothing_pending(ctx, rr)
     return rr
 
 
@@ -1465,3 +1466,28 @@ def rule_PL9(ctx, tier):
     else:
         rr.fail("timeout-not-classified", "no closure of `net::http::request` looks at `reqwest::Error::is_timeout`: a request that ran into its deadline is not told apart from a malformed exchange", where=rq.span)
     return rr
+
+
+def reachable_only_with_nothing_pending(ctx, rr):
+    """C13 'shown reachable again with nothing pending': the retry task flags the tower Reachable only on a path where the
+    pending appointments of the tower, as the database holds them at that moment and under the state lock, were found empty.
+    What the retrier was told to deliver is not all there may be: the hook stores without telling it while the tower reads
+    unreachable, and a retrier created from one message knows one locator."""
+    P = ctx.prog
+    n = 0
+    for cid in P.family(START):
+        cb = P.bodies[cid]
+        for bb in sites(cb, WT + "set_tower_status"):
+            if "TowerStatus::Reachable" not in og.show(arg_origin(ctx, cb, bb, 2)):
+                continue
+            n += 1
+            ok = False
+            for f in facts_at(ctx, cb, bb):
+                if f[0] == "truth" and f[2] is True and has_call(f[1], "is_empty") and has_call(f[1], "DBM::load_appointment_locators") and "Pending" in og.show(f[1]):
+                    ok = True
+            if ok:
+                rr.ok("retry task: Reachable only when the database holds nothing pending for the tower")
+            else:
+                rr.fail("reachable-with-pending", "the retry task flags the tower Reachable after delivering what it had been given, without looking at what the database holds as pending for that tower: an appointment stored by the hook while the idle retrier was being woken up (a full polling round), or older ones when the retrier was created from a single message, stays pending with no retrier, `retrytower` refused and the tower shown reachable", where=cb.line_of(bb))
+    if n == 0:
+        rr.fail("reachable-site-missing", "the retry task never flags the tower Reachable", where=P.require(START).span)
